@@ -473,8 +473,11 @@ def run_case(case):
         return obs
     probs = [p for p in r["problems"] if p[0] not in ("refused", "internal")]
     if len(probs) != len(r["problems"]):
-        obs["nontrivial"] = False
+        # the Color BASIC reference ran the program: it is in the fragment, so there has to be an emitted program
+        ref = [p for p in r["problems"] if p[0] in ("refused", "internal")][0]
         obs["counters"]["refused_or_internal"] = 1
+        obs["viols"].append({"sig": "C03/valid-program-%s/%s" % (ref[0], ref[1]),
+                             "detail": {"source": r["text"][:1500], "kind": ref[0], "info": str(ref[1]), "options": opts, "inputs": inputs}})
         return obs
     obs["counters"]["traces_compared"] = 1
     if probs:
